@@ -213,6 +213,22 @@ CLAIMED['C10'] = dict(
          '(response decrypted independently, cipher compared with a reference CFB8), 18 concrete disconnect bodies.',
     design='§6 C10')
 
+CLAIMED['C11'] = dict(
+    text='PlayingReactor.react from its real source, for every supported version at once (symbolic version index) and symbolic '
+         'field values: keep-alive -> exactly one KeepAlive with the same id appended at the tail, position-and-look -> '
+         'TeleportConfirm(same id) from protocol 107 / an echoing position packet before, spawned set, disconnect -> disconnect() '
+         'once, generic/unhandled packets change nothing (frame). _pop_packet on a queue of symbolic length writes the oldest '
+         'element and removes exactly it. NetworkingThread._run: its three loops carry invariants and variants (write batch <= 300 '
+         'in FIFO order and only under the lock; read batch: every packet returned by read_packet is handed to _react exactly once, '
+         'in order, before the next read, outside the lock, <= 50; a pending write error is the only exception _run raises itself, '
+         'and it is dropped after a disconnect packet), the lock is released on every path. _handle_exit: callback exactly once '
+         'iff closed and set.',
+    note='Safety only: "always answered" as liveness (the loop runs again, the queue is eventually written) is not decided. '
+         'Trusted: deque FIFO semantics, S4 version order, read_packet (C01) and _react (C13) through their contracts. Bounded: '
+         'seeded 120-packet server histories on the real reactor at protocols 47/107/340/757, the real _run with 700 outgoing and '
+         '120 incoming packets.',
+    design='§6 C11')
+
 PLANNED = {
     'C01': 'check not built yet (DESIGN §6 C01): frame contracts on Packet.write/_write_buffer/read_packet',
     'C02': 'check not built yet (DESIGN §6 C02)',
